@@ -2,7 +2,7 @@
 Spec: Envelope.tla (impl-shaped, PlusCal) + EnvelopeMC/EnvelopeGen (model checking + behaviour generation)
       EnvelopeObs.tla (property monitor over real traces).  Driver: harness/drivers/envdrv."""
 import json, os, re, collections
-from vlib import Run, Infra, tla_set, log
+from vlib import Run, Infra, tla_set, log, cfg_text
 
 BASE = dict(defaultInitValue="defaultInitValue", E=3, R=1, P=1, MaxT=5, MaxKids=4, MaxRecs=2, MaxFaults=0, MaxOpFaults=0,
             MaxRevokes=1, Ticks="{1}", MidOpTicks="FALSE", EmitEvery=1)
@@ -27,22 +27,6 @@ CLAUSES = {
     "C14": ("C14.", "C02.ChainDurableAtReturn"),
     "C20": ("C20.",),
 }
-
-
-def cfg_text(spec, consts, invs=(), view=None, post=None, props=()):
-    t = ["SPECIFICATION " + spec, "CONSTANTS"]
-    for k, v in consts.items():
-        t.append("  %s %s" % (k, v) if str(v).startswith("<-") else "  %s = %s" % (k, v))
-    if view:
-        t.append("VIEW " + view)
-    if invs:
-        t.append("INVARIANTS " + " ".join(invs))
-    if props:
-        t.append("PROPERTIES " + " ".join(props))
-    if post:
-        t.append("POSTCONDITION " + post)
-    t.append("CHECK_DEADLOCK FALSE")
-    return "\n".join(t) + "\n"
 
 
 def family(run, label, over, procs=("p1",), parts=("a",), ik=("session", "shared", "none"), sk=(True, False), sess=(False,),
@@ -79,7 +63,7 @@ def family(run, label, over, procs=("p1",), parts=("a",), ik=("session", "shared
 
 def monitor(run, trace):
     """Runs the monitor spec over trace.ndjson in the scratch dir; returns [(clause, run, line)]."""
-    run.write("MON.cfg", cfg_text("MSpec", {}, invs=["StoreUnique"], post="TraceAccepted").replace("CONSTANTS\n", ""))
+    run.write("MON.cfg", cfg_text("MSpec", {}, invs=["StoreUnique"], post="TraceAccepted"))
     n_events = sum(1 for _ in open(trace))
     r = run.tlc("EnvelopeObs.tla", "MON.cfg", workers=1, timeout=1800, heap="8g")
     if r.rejected_at is not None or r.violated or not r.ok:
